@@ -4,6 +4,14 @@ import json, os, sys
 HERE = os.path.dirname(os.path.dirname(os.path.abspath(__file__)))
 
 CHECKS = {
+ "C17": dict(level="other", design="4.15",
+   technique="pattern-level discipline rules on canonicalised bodies (parameters/locals renamed) of every dispatcher and visitor function; linear entailment for the grow-only resize",
+   text="Decides structural clauses: lookup results are compared with end()/size before use and the error is raised; empty type lists call on_error; "
+        "each static dispatch step casts to the head type and recurses on the tail; the swapped executor call is selected exactly by symmetric && "
+        "rhs_index < lhs_index with index_of on the matching lists; registration assigns (replaces) under the key of D...; handler wrappers cast "
+        "args position-wise and append the undispatched ones; fast-dispatcher tables are resized only under size() <= index or for a fresh index; a failed "
+        "visitor cast goes to the configured catch_all policy.",
+   note="A body restructured beyond renaming is reported as analysis-broken (exit 2), not as a violation; run-time class-index state across registration histories is not decided."),
  "C10": dict(level="other", design="4.8",
    technique="forwarding/shape/operator-name agreement rules, polynomial identity of the mul/div formulas in (a,b,c,d), Annex-G idiom rule, closure-kind compile witnesses",
    text="Decides structural clauses only: the 24 elementary-function wrappers call the same-named std function on std::complex<value_type>(x) in order; "
